@@ -105,9 +105,17 @@ def matchOpen (buf : List Char) : Option (List Char) :=
   | some n => some (buf.take n)
   | none => none
 
-/-- `streamEndRegex = </stream:stream>$` : `$` matches at the very end or before a final LF -/
-def endsWithClose (buf : List Char) : Bool :=
+/-- `streamEndRegex = </stream:stream>$` (the code BEFORE 109544b; kept for reference): `$` matches at the very end or
+before ONE final LF -/
+def endsWithCloseStrict (buf : List Char) : Bool :=
   closeTag.isSuffixOf buf || (closeTag ++ ['\n']).isSuffixOf buf
+
+/-- `streamEndRegex = </stream:stream>\s*$` (repo commit 109544b): any white space (`\s`) may follow the closing tag -/
+def endsWithCloseTolerant (buf : List Char) : Bool :=
+  closeTag.isSuffixOf (buf.reverse.dropWhile reSpace).reverse
+
+/-- the close detection of the code as it is (repo commit 109544b; was `endsWithCloseStrict` before) -/
+def endsWithClose (buf : List Char) : Bool := endsWithCloseTolerant buf
 
 /-- the text handed to the DOM parser: cached open tag in front unless the buffer has its own, synthetic
 close tag behind unless the buffer has its own -/
